@@ -210,6 +210,10 @@ def run(ctx):
                         t = txt(g.test)
                         if (t == f"ToolsNames.{key} in params" and br == "orelse") or (t == f"ToolsNames.{key} not in params" and br == "body"):
                             o.holds(init, d, f"default for {key}: `{txt(d.value)}` (numeric) when the key is absent")
+                        elif isinstance(g.test, ast.Compare) and len(g.test.ops) == 1 and isinstance(g.test.ops[0], (ast.In, ast.NotIn)) and txt(g.test.comparators[0]) == "params" \
+                                and rules.enum_member(g.test.left, "ToolsNames") not in (None, key):
+                            o.violated(init, d, f"the default of `self.{attr}` hangs off `{t}` (a DIFFERENT option): with {key} absent the limit is left unset / with it present "
+                                                f"the caller's value is overwritten, depending on whether {rules.enum_member(g.test.left, 'ToolsNames')} was passed", shape_free=True)
                         else:
                             o.undecided(f"default of {attr} guarded by `{t}`", init, d)
                     else:
